@@ -558,6 +558,18 @@ pub fn scenarios(tier: &str) -> Vec<Scenario> {
         s.env.budgets = vec![("read", 12), ("write", 8), ("flush", 4), ("env", 16), ("envq", 6), ("shutdown", 2)];
         out.push(s);
     }
+    // an unfinished head of exactly / one below / one above the 131 072-byte limit, arriving after
+    // a first (served) request: the read gate and the decoder's limit must agree at the boundary
+    for (n, len) in [("limit", 131_072usize), ("limit+1", 131_073)] {
+        let svc = &services[0].1;
+        let mut s = Scenario::new(&format!("readall:oversized-head-after-first-request/{n}"), vec![RequestSpec::new("GET", 0)], vec![svc()]);
+        let mut tail = b"GET /1 HTTP/1.1\r\nx-endless: ".to_vec();
+        tail.resize(len, b'a');
+        s.tail = tail;
+        s.fin = FinPlan::Never;
+        s.env.budgets = vec![("read", 12), ("write", 8), ("flush", 4), ("env", 16), ("envq", 6), ("shutdown", 2)];
+        out.push(s);
+    }
     out
 }
 
